@@ -41,6 +41,7 @@ enum Status {
 #[repr(u8)]
 pub enum Op {
     MutexLock = 1,
+    MutexUnlock,
     CondWait,
     CondNotify,
     Atomic,
